@@ -156,6 +156,17 @@ type httpSpec struct {
 }
 
 func (w *world) doHTTP(s httpSpec) Obs {
+	var o Obs
+	for attempt := 0; attempt < 3; attempt++ {
+		o = w.doHTTPOnce(s)
+		if !strings.HasPrefix(o.Resp, "client error: ") {
+			break
+		}
+	}
+	return o
+}
+
+func (w *world) doHTTPOnce(s httpSpec) Obs {
 	w.resetLogs()
 	u := w.srv.URL + "/graphql"
 	if s.RawQuery != "" {
@@ -215,8 +226,9 @@ func httpEnvelope(r *hx.Rand, c string, op Op) httpSpec {
 		return httpSpec{Method: "GET", RawQuery: qpairs(r, kv)}
 	case cPostJSON:
 		s := httpSpec{Method: "POST", ContentType: hx.Pick(r, []string{"application/json", "application/json", "application/json; charset=utf-8", "Application/JSON"}), Body: envelopeJSON(r, op, true)}
-		if r.Chance(1, 5) {
-			// a URL query parameter is overwritten by the body's member
+		if op.Query != "" && r.Chance(1, 5) {
+			// a URL query parameter is overwritten by the body's member (only spelled when the body
+			// names a non-empty query: with an empty one the request would name two operations)
 			s.RawQuery = "query=" + url.QueryEscape("{ __typename }")
 		}
 		return s
@@ -423,8 +435,14 @@ func decodeVars(text *string) (map[string]interface{}, error) {
 // direct runs the shared pipeline on the abstract request with the real library, no transport:
 // ParseAndValidate with the cost rule, then the configured execute function; the response is
 // marshalled the way every transport marshals it.
-func (w *world) direct(query, opName string, vars, exts map[string]interface{}, useFeaturesFn bool, cost graphql.FieldCost) Obs {
+func (w *world) direct(query, opName string, vars, exts map[string]interface{}, useFeaturesFn bool, cost graphql.FieldCost) (o Obs) {
 	w.resetLogs()
+	defer func() {
+		if p := recover(); p != nil {
+			o = Obs{Resp: fmt.Sprintf("panic: %v", p)}
+			w.takeLogs()
+		}
+	}()
 	ctx := baseContext(context.Background())
 	var feat graphql.FeatureSet
 	if useFeaturesFn {
@@ -441,7 +459,6 @@ func (w *world) direct(query, opName string, vars, exts map[string]interface{}, 
 		resp = w.executeHook(req, &info)
 	}
 	body, err := jsoniter.Marshal(resp)
-	var o Obs
 	if err != nil {
 		o.Resp = "marshal error: " + err.Error()
 	} else {
